@@ -71,12 +71,18 @@ def gen(rng, tier):
                     w["sd"] = sd
     if not twin and rng.random() < 0.3:
         spec["backward"] = {"due": rng.random() < 0.3, "reverse": rng.random() < 0.5}
+    elif not twin:
+        # the dead-time rules also hold for a call that follows an earlier one on the same object, with a worker's / facility's
+        # own absence list edited in between, and for a model read from a file
+        C.maybe_from_json(rng, C.maybe_abs_edit(rng, C.maybe_history(rng, spec, 0.25, reload_prob=0.2), 0.6), 0.1)
     if twin and not random_twin and rng.random() < 0.2:
         spec["backward_twin"] = {"due": rng.random() < 0.3, "reverse": True}  # the twin clause on the result of a backward simulation
     return spec
 
 
 def extra_candidates(spec):
+    for c in C.history_candidates(spec):
+        yield c
     if spec.get("backward") is not None:
         c = dict(spec)
         c.pop("backward")
@@ -214,7 +220,9 @@ def check_live(res, tr):
     # logs at absence indices
     steps = C.full_steps(rec)
     p = tr.project
-    for i, s in enumerate(steps):
+    off = getattr(tr, "log_offset", 0)
+    for i0, s in enumerate(steps):
+        i = off + i0  # (logs kept from an earlier call come first)
         k = s.t
         if k in tr.absence:
             for kind, objs in (("worker", tr.ix.workers), ("facility", tr.ix.facs)):
